@@ -6,17 +6,41 @@
    each final state one complete behaviour for the replay on real engines. *)
 EXTENDS Engine, TLC, Json, IOUtils
 CONSTANTS MaxSteps, MaxInst, Emit,
-          SkipClear      \* canary: a process() that does not clear the fuzzy outputs first
+          SkipClear,     \* canary: a process() that does not clear the fuzzy outputs first
+          EditMode       \* TRUE: behaviours built around one edit of the configuration taken from the case's list `edits`
 Cases == JsonDeserialize(IOEnv.VERIF_CASES)
-VARIABLES cid, inst, cur, steps, expect
-vars == <<cid, inst, cur, steps, expect>>
+VARIABLES cid, inst, cur, steps, expect, ek
+vars == <<cid, inst, cur, steps, expect, ek>>
 C == Cases[cid]
 Proc(E, st) == IF SkipClear THEN Defuzz(E, Blocks(E, st, 1), 1) ELSE Process(E, st)
 ObsAll(ii) == [i \in 1..Len(ii) |-> [in |-> ii[i].st.inval, obs |-> Observe(ii[i].E, ii[i].st)]]
 Log(a, arg) == steps' = Append(steps, [act |-> a, arg |-> arg]) /\ expect' = Append(expect, [cur |-> cur', inst |-> ObsAll(inst')])
 Upd(f(_)) == inst' = [inst EXCEPT ![cur] = f(@)]
-Init == cid \in 1..Len(Cases) /\ inst = << [E |-> Cases[cid].engine, st |-> Fresh(Cases[cid].engine)] >> /\ cur = 1 /\ steps = <<>> /\ expect = <<>>
+\* ---- edits of the configuration after first use (EditMode): one edit per behaviour, applied and taken back as a toggle -----
+\* ed = [kind, a, b, c, x, ox (XReal: new / original), s, os (string: new / original), n, on (integer: new / original)]
+Flip(cur_, new, orig) == IF cur_ = new THEN orig ELSE new
+ApplyEdit(E, ed) ==
+  CASE ed.kind = "weight"     -> [E EXCEPT !.blocks[ed.a].rules[ed.b].weight = Flip(@, ed.x, ed.ox)]
+    [] ed.kind = "oterm-p"    -> [E EXCEPT !.outputs[ed.a].terms[ed.b].p[ed.c] = Flip(@, ed.x, ed.ox)]
+    [] ed.kind = "iterm-p"    -> [E EXCEPT !.inputs[ed.a].terms[ed.b].p[ed.c] = Flip(@, ed.x, ed.ox)]
+    [] ed.kind = "threshold"  -> [E EXCEPT !.blocks[ed.a].activation.threshold = Flip(@, ed.x, ed.ox)]
+    [] ed.kind = "comparator" -> [E EXCEPT !.blocks[ed.a].activation.comparator = Flip(@, ed.s, ed.os)]
+    [] ed.kind = "act-rules"  -> [E EXCEPT !.blocks[ed.a].activation.rules = Flip(@, ed.n, ed.on)]
+    [] ed.kind = "implication" -> [E EXCEPT !.blocks[ed.a].implication = Flip(@, ed.s, ed.os)]
+    [] ed.kind = "conjunction" -> [E EXCEPT !.blocks[ed.a].conjunction = Flip(@, ed.s, ed.os)]
+    [] ed.kind = "aggregation" -> [E EXCEPT !.outputs[ed.a].aggregation = Flip(@, ed.s, ed.os)]
+    [] ed.kind = "defuzz-type" -> [E EXCEPT !.outputs[ed.a].defuzzifier.type = Flip(@, ed.s, ed.os)]
+    [] ed.kind = "defuzz-res"  -> [E EXCEPT !.outputs[ed.a].defuzzifier.resolution = Flip(@, ed.n, ed.on)]
+    [] ed.kind = "defuzz-cls"  -> [E EXCEPT !.outputs[ed.a].defuzzifier.cls = Flip(@, ed.s, ed.os)]
+    [] ed.kind = "out-enabled" -> [E EXCEPT !.outputs[ed.a].enabled = ~@]
+    [] ed.kind = "in-enabled"  -> [E EXCEPT !.inputs[ed.a].enabled = ~@]
+    [] ed.kind = "block-enabled" -> [E EXCEPT !.blocks[ed.a].enabled = ~@]
+    [] ed.kind = "swap-enabled" -> [E EXCEPT !.blocks[ed.a].rules[ed.b].enabled = ~@, !.blocks[ed.a].rules[ed.c].enabled = ~@]
+    [] ed.kind = "lock-previous" -> [E EXCEPT !.outputs[ed.a].lockPrev = ~@]
+    [] ed.kind = "default"    -> [E EXCEPT !.outputs[ed.a].default = Flip(@, ed.x, ed.ox)]
+Init == cid \in 1..Len(Cases) /\ ek \in (IF EditMode THEN 1..Len(Cases[cid].edits) ELSE {0}) /\ inst = << [E |-> Cases[cid].engine, st |-> Fresh(Cases[cid].engine)] >> /\ cur = 1 /\ steps = <<>> /\ expect = <<>>
 DoSet     == \E r \in 1..Len(C.rows) : Upd(LAMBDA x : [x EXCEPT !.st = SetInputs(x.E, x.st, C.rows[r])]) /\ UNCHANGED cur /\ Log("set", r)
+DoSetRow(r) == Upd(LAMBDA x : [x EXCEPT !.st = SetInputs(x.E, x.st, C.rows[r])]) /\ UNCHANGED cur /\ Log("set", r)
 DoProcess == Upd(LAMBDA x : [x EXCEPT !.st = Proc(x.E, x.st)]) /\ UNCHANGED cur /\ Log("process", 0)
 \* restart: inputs NaN, outputs and fuzzy outputs cleared, every rule reloaded
 Reloaded(E) == [E EXCEPT !.blocks = [b \in 1..Len(E.blocks) |-> [E.blocks[b] EXCEPT !.rules = [i \in 1..Len(E.blocks[b].rules) |-> [E.blocks[b].rules[i] EXCEPT !.loaded = TRUE]]]]]
@@ -29,7 +53,10 @@ DoSwitch  == \E j \in 1..Len(inst) : j # cur /\ cur' = j /\ UNCHANGED inst /\ Lo
 DoEdit    == Upd(LAMBDA x : [x EXCEPT !.E.blocks[1].rules[1].weight = IF @ = One THEN Half ELSE One]) /\ UNCHANGED cur /\ Log("edit", 0)
 \* toggle the enabled flag of the last rule of the first block
 DoToggle  == Upd(LAMBDA x : [x EXCEPT !.E.blocks[1].rules[Len(x.E.blocks[1].rules)].enabled = ~@]) /\ UNCHANGED cur /\ Log("toggle", 0)
-Next == Len(steps) < MaxSteps /\ UNCHANGED cid /\ (DoSet \/ DoProcess \/ DoRestart \/ DoCopy \/ DoSwitch \/ DoEdit \/ DoToggle \/ DoUnload)
+DoEditK   == Upd(LAMBDA x : [x EXCEPT !.E = ApplyEdit(x.E, C.edits[ek])]) /\ UNCHANGED cur /\ Log("edit-k", ek)
+Next == /\ Len(steps) < MaxSteps /\ UNCHANGED <<cid, ek>>
+        /\ IF EditMode THEN (IF steps = <<>> THEN DoSetRow(1) ELSE (DoSetRow(2) \/ DoProcess \/ DoRestart \/ DoCopy \/ DoEditK))
+           ELSE (DoSet \/ DoProcess \/ DoRestart \/ DoCopy \/ DoSwitch \/ DoEdit \/ DoToggle \/ DoUnload)
 Spec == Init /\ [][Next]_vars
 
 LastAct == IF steps = <<>> THEN "none" ELSE steps[Len(steps)].act
@@ -37,7 +64,10 @@ NoLock(E) == \A o \in 1..Len(E.outputs) : ~E.outputs[o].lockPrev
 \* with lock-previous off the outputs of a processing step depend only on the inputs of that step
 HistoryFree == (LastAct = "process" /\ NoLock(inst[cur].E)) =>
    LET x == inst[cur]  ref == Process(x.E, SetInputs(x.E, Fresh(x.E), x.st.inval)) IN
-   x.st.outval = ref.outval /\ x.st.fuzzy = ref.fuzzy /\ x.st.deg = ref.deg
+   \* (a disabled output variable keeps the value it had, C12; the rules of a disabled block are not evaluated)
+   /\ \A o \in 1..Len(x.E.outputs) : x.E.outputs[o].enabled => x.st.outval[o] = ref.outval[o]
+   /\ x.st.fuzzy = ref.fuzzy
+   /\ \A b \in 1..Len(x.E.blocks) : x.E.blocks[b].enabled => x.st.deg[b] = ref.deg[b]
 \* after restart the instance is indistinguishable from a freshly built one
 RestartIsFresh == LastAct = "restart" => (inst[cur].st = Fresh(inst[cur].E) /\ inst[cur].E = Reloaded(inst[cur].E))
 \* operating or editing one instance never changes another
@@ -45,5 +75,5 @@ Independent == [][\A i \in 1..Len(inst) : (i # cur /\ i <= Len(inst')) => inst'[
 \* a copy starts as an exact duplicate
 CopyIdentical == LastAct = "copy" => \E j \in 1..(Len(inst) - 1) : inst[Len(inst)] = inst[j]
 EmitInv == (Emit /\ Len(steps) = MaxSteps) => PrintT(ToJson([cid |-> C.id, steps |-> steps, expect |-> expect]))
-View == <<cid, inst, cur, Len(steps)>>
+View == <<cid, inst, cur, Len(steps), ek>>
 =============================================================================
